@@ -46,3 +46,47 @@ func TestFieldErrPrograms(t *testing.T) {
 		}
 	}
 }
+
+// TestSynErrPrograms: the damage of the synerr family is what its tags say. A module with
+// recoverable damage only parses to the end and reports at least one recoverable error, a module
+// with critical damage ends in a critical error, every other module parses cleanly.
+func TestSynErrPrograms(t *testing.T) {
+	counts := map[string]int{}
+	for seed := uint64(1); seed <= 400; seed++ {
+		b, damage := buildSynErr(fw.NewRng(seed))
+		for name, text := range b.Src {
+			soft, hard := parseModule(name, text)
+			d := damage[name]
+			switch {
+			case d.Critical > 0:
+				counts["critical"]++
+				if hard == "" {
+					t.Errorf("seed %d module %s: critical damage, but the parse went through (%d recoverable errors)\n%s", seed, name, len(soft), text)
+				}
+			case d.Recoverable > 0:
+				counts["recoverable"]++
+				if hard != "" || len(soft) == 0 {
+					t.Errorf("seed %d module %s: recoverable damage (%d lines), got critical=%q recoverable=%v\n%s", seed, name, d.Recoverable, hard, soft, text)
+				}
+			default:
+				counts["clean"]++
+				if hard != "" || len(soft) != 0 {
+					t.Errorf("seed %d module %s: no damage, got critical=%q recoverable=%v\n%s", seed, name, hard, soft, text)
+				}
+			}
+		}
+	}
+	t.Log(counts)
+}
+
+// TestCellsPrograms: every program of the cells family is accepted and runs to the end on both
+// back ends (otherwise the writes in place it was built for are not executed).
+func TestCellsPrograms(t *testing.T) {
+	for seed := uint64(1); seed <= 200; seed++ {
+		b := famCells(fw.NewRng(seed), Poison{})
+		ob := Observe(b.Src, ObsOpts{})
+		if !ob.Ran || ob.VMOutcome != "ok" || ob.TreeOutcome != "ok" || !strings.Contains(ob.VMOutput, "end none none none none") || !strings.Contains(ob.TreeOutput, "end none none none none") {
+			t.Errorf("seed %d: ran=%v\ndiags: %s\nvm: %s\ntree: %s\n%s", seed, ob.Ran, ob.Diags, ob.VMOutcome, ob.TreeOutcome, b.Src["main"])
+		}
+	}
+}
